@@ -1209,7 +1209,11 @@ func doWalk(cs *connState, ref *fidRef, names []string, getattr bool) (qids []QI
 	// validate anything since this is always permitted.
 	if len(names) == 0 {
 		var sf File // Temporary.
-		if err := ref.maybeParent().safelyRead(func() (err error) {
+		// The clone is a Walk (and possibly GetAttr) on ref's own File, so
+		// it is ref's own path node that has to be locked for reading. That
+		// also keeps the deletion check below atomic: an unlink of this
+		// entry takes this node's lock for writing.
+		if err := ref.safelyRead(func() (err error) {
 			// Clone the single element.
 			qids, sf, valid, attr, err = walkOne(nil, ref.file, nil, getattr)
 			if err != nil {
